@@ -94,6 +94,16 @@ def check_container(ctx, g, w, c, fails, flags):
                     fails.append(Failure("oracle", captured, "%r is read as %s although the container declares that prefix as %s" % (
                         x, uri, ind), {"ops": list(w.ops)}))
                     uri = ind
+            if kind == "print":
+                # which prefix a copied namespace received can depend on the order in which Python iterates a set of attribute
+                # values (admissible prefix-level divergence between model and implementation, see diff_outputs): the
+                # container is observed first, so that such a history is recognised there and not at the print-form lookup
+                w.obs(c)
+                if cont.is_bundle() and cont.document is not None:
+                    for h_, o_ in list(w.conts.items()):
+                        if o_ is cont.document:
+                            w.obs(h_)        # a bundle answers for prefixes of its document too
+                            break
             got = w.get_record(c, x)
             exp = expected_indices(w.conts[c], uri) if uri is not None else []
             got_idx = w.outs[-1]["recs"]
